@@ -9,6 +9,7 @@ slice-stream (bytes + position, clamping seeks) written here, not the Lean spec.
 from __future__ import annotations
 
 import io
+import json
 
 import common
 from common import Channel
@@ -304,6 +305,131 @@ def corpus_cases():
     return out
 
 
+
+# ------------------------------------------------------------------ huge windows (oracle only)
+
+def vbyte(p: int) -> int:
+    """content of the virtual underlying file: a fixed function of the byte position"""
+    x = (p * 0x9E3779B97F4A7C15 + 0x1234567) & 0xFFFFFFFFFFFFFFFF
+    return (x >> 53) & 0xFF
+
+
+class VFile:
+    """read-only file-like object of `length` bytes (seek / tell / read is all BufferedReader asks of its
+    reader); lets a window lie beyond 2^31, 2^32, 2^53 and 2^63 bytes, which no real file here can"""
+
+    def __init__(self, length: int):
+        self.length, self.p = length, 0
+
+    def seek(self, offset, whence=io.SEEK_SET):
+        self.p = max(0, offset if whence == io.SEEK_SET else self.p + offset if whence == io.SEEK_CUR
+                     else self.length + offset)
+        return self.p
+
+    def tell(self):
+        return self.p
+
+    def read(self, n=-1):
+        stop = self.length if n is None or n < 0 else min(self.p + n, self.length)
+        if stop - self.p > 1 << 22:
+            raise AssertionError(f"unbounded read of the virtual file ({stop - self.p} bytes)")
+        out = bytes(vbyte(i) for i in range(self.p, max(self.p, stop)))
+        self.p = max(self.p, stop)
+        return out
+
+
+def huge_cases(rng, count):
+    """windows whose positions cross 2^31, 2^32, 2^53 and 2^63: a position just below / on / above a buffer
+    boundary next to the power of two, and odd positions above 2^53 (not representable as a double)"""
+    out = []
+    for i in range(count):
+        P = [2 ** 31, 2 ** 32, 2 ** 53, 2 ** 53 + 2 ** 30, 2 ** 54, 2 ** 63, 2 ** 64][i % 7]
+        bs = [1, 3, 24, 1000, 4096, 16384][(i // 7) % 6]
+        mb = [1, 2, 3, 30][(i // 3) % 4]
+        off = rng.choice([0, 1, 7, bs - 1, bs, 12345, 2 ** 53 + 1])
+        size = P + rng.choice([bs * 40 + 7, 2 ** 20 + 1, P])
+        k = (P + bs - 1) // bs
+        anchors = [k * bs - 1, k * bs, k * bs + 1, (k + 1) * bs - 1, P - 1, P, P + 1, P + 2 * bs + 1, (k + 3) * bs - 1]
+        ops = []
+        for a in rng.sample(anchors, 5):
+            ops.append(("s", a, 0))
+            ops.append(rng.choice([("p", 1), ("p", 2), ("p", bs + 1), ("r", 1), ("r", 2), ("r", bs), ("r", 2 * bs + 1)]))
+            ops.append(("t",))
+            if rng.random() < .5:
+                ops.append(("s", rng.choice([-1, 1, -bs, bs - 1]), 1))
+                ops.append(rng.choice([("r", 1), ("p", 3), ("r", bs + 1)]))
+        ops += [("s", -1, 2), ("r", 5), ("t",), ("s", -(size - P), 2), ("r", 2), ("s", 2 * size, 0), ("r", 1), ("t",)]
+        out.append({"virtual": True, "offset": off, "size": size, "buffersize": bs, "max_buffers": mb,
+                    "ops": fmt_ops(ops)})
+    return out
+
+
+def run_huge(j):
+    """real class over the virtual file vs the slice semantics of the property text (no model run: the
+    driver materialises the file; the theorems quantify over every Nat position anyway)"""
+    from dashlive.utils.buffered_reader import BufferedReader
+    off, size, bs, mb = j["offset"], j["size"], j["buffersize"], j["max_buffers"]
+    ops = case_from_json({"file": "", **{k: j[k] for k in ("offset", "size", "buffersize", "max_buffers", "ops")}})[5]
+    r = BufferedReader(VFile(off + size + 1000), buffersize=bs, offset=off, size=size, max_buffers=mb)
+
+    def win(p, n):
+        return bytes(vbyte(off + q) for q in range(p, min(p + n, size)))
+    pos, fails = 0, []
+    for i, op in enumerate(ops):
+        if op[0] == "r":
+            n = op[1]
+            got = r.read(n)
+            got = got.encode() if isinstance(got, str) else bytes(got)
+            want = win(pos, n)
+            pos += len(want)
+            if got != want:
+                fails.append({"op": i, "what": "read returned other bytes than the window slice", "at": pos - len(want),
+                              "got": got.hex(), "want": want.hex()})
+        elif op[0] == "p":
+            n = op[1]
+            got = r.peek(n)
+            got = got.encode() if isinstance(got, str) else bytes(got)
+            want = win(pos, n)
+            if got[:len(want)] != want:
+                fails.append({"op": i, "what": "peek does not start with the next min(n, remaining) window bytes",
+                              "at": pos, "got": got[:len(want) + 4].hex(), "want_prefix": want.hex()})
+        elif op[0] == "s":
+            got = r.seek(op[1], op[2])
+            tgt = op[1] if op[2] == 0 else (pos + op[1] if op[2] == 1 else size + op[1])
+            pos = max(0, min(size, tgt))
+            if got != pos:
+                fails.append({"op": i, "what": "seek result not clamped target", "got": got, "want": pos})
+        if r.tell() != pos:
+            fails.append({"op": i, "what": "position differs from the slice stream", "got": r.tell(), "want": pos})
+            pos = r.tell()
+        if fails:
+            break
+    return fails
+
+
+def ch_huge(ctx) -> Channel:
+    ch = Channel("bufreader_huge", rule=(
+        "windows of 2^31 .. 2^64 bytes over a virtual file whose bytes are a function of the position "
+        "(VFile): seeks to positions just below / on / above the buffer boundary next to 2^31, 2^32, 2^53, "
+        "2^54, 2^63, 2^64, reads and peeks across it, from-the-end seeks; the real BufferedReader against the "
+        "slice semantics of the property text (oracle only - the model driver materialises its file); "
+        "non-trivial = every case; distinct by case"))
+    rng = ctx.rng("bufreader_huge")
+    for j in huge_cases(rng, ctx.scale(168, 5000)):
+        ch.evaluations += 1
+        ch.count(f"bufsize={j['buffersize']}")
+        ch.count(f"size>=2^{j['size'].bit_length() - 1}")
+        ch.nontrivial.add(json.dumps(j, sort_keys=True))
+        try:
+            fails = run_huge(j)
+        except Exception as e:
+            fails = [{"what": f"exception {type(e).__name__}: {e}"}]
+        if fails:
+            ch.oracle_failures.append({"case": j, "first_failure": fails[:1]})
+        ch.sample({"case": j}, limit=2)
+    return ch
+
+
 def channels(ctx):
     ch = Channel("bufreader", rule=(
         "a fixed grid (empty, one-byte, whole-file and end-of-file windows, windows of exactly buffersize x "
@@ -317,11 +443,16 @@ def channels(ctx):
     cases += [gen_case(rng, ctx.thorough) for _ in range(n)]
     evaluate(cases, ch)
     yield ch
+    yield ch_huge(ctx)
 
 
 def search(ctx, disagreements):
     """Layer C: look for an input on which the real class violates C20"""
     rng = ctx.rng("search")
+    for j in huge_cases(rng, 700):
+        f = run_huge(j)
+        if f:
+            return {"case": j, "first_failure": f[:1]}
     seeds = [case_from_json(d["case"]) for d in disagreements if "case" in d]
     for c in seeds + fixed_cases() + [gen_case(rng, True) for _ in range(20000)]:
         f = _fails_only(c)
@@ -335,6 +466,9 @@ def replay(ctx, payload):
     f = payload.get("failure") or {}
     if "case" not in f:
         return {"fails": False, "note": "replay names a broken obligation, no input", "payload": payload.get("broken")}
+    if f["case"].get("virtual"):
+        fails = run_huge(f["case"])
+        return {"fails": bool(fails), "failures": fails, "case": f["case"]}
     c = case_from_json(f["case"])
     fails = _fails_only(c)
     return {"fails": bool(fails), "failures": fails, "case": f["case"]}
